@@ -278,6 +278,37 @@ Definition rd_storage2 (mr ms : mvmem) (bk : backing) (t : nat) (a s : N) : acce
 
 Definition rd_storage (m : mvmem) := rd_storage2 m m.
 
+(* incarnation_db.rs storage() after fix 1f61367: when the incarnation has already recorded a version
+   [rv] for the account's StorageReset marker, that version is reused (the marker is not looked up
+   again, nothing is added to blocking_txs for it) and only the slot lookup is fresh *)
+Definition rd_storage_rec (rv : rversion) (ms : mvmem) (bk : backing) (t : nat) (a s : N) : access N :=
+  let lr := LReset a in
+  let ls := LStorage a s in
+  let rk := match rv with RMv k _ => Some k | _ => None end in
+  let whit := match mv_read ms ls t with
+              | Some (k, e) => match e_data e with VStorage v => Some (k, e, v) | _ => None end
+              | None => None
+              end in
+  let rver := match rv with RMv k i => RMv k i | _ => RStorage end in
+  let wver := match whit with Some (k, e, _) => RMv k (e_inc e) | None => RStorage end in
+  let blk := match whit with Some (k, e, _) => est_block k e | None => [] end in
+  let reads := [(lr, rver); (ls, wver)] in
+  let from_reset_or_db :=
+    match rk with
+    | Some _ => Ok 0%N
+    | None => b_storage bk a s
+    end in
+  let val :=
+    match whit with
+    | Some (wk, _, v) =>
+        match rk with
+        | None => Ok v
+        | Some rk => if Nat.leb rk wk then Ok v else from_reset_or_db
+        end
+    | None => from_reset_or_db
+    end in
+  mkAccess val reads blk false None.
+
 (* ------------------------------------------------------------------------------- publication *)
 
 Definition none_or {A} (o : option A) (p : A -> bool) : bool :=
@@ -371,8 +402,27 @@ Definition do_basic (st : istate) (m : mvmem) (bk : backing) (bmatch : N -> bool
     (bresolve : nat -> benres) (a : N) : istate * res (option info) :=
   let ac := rd_basic m bk bmatch bresolve (is_txid st) a in (absorb st ac, ac_val ac).
 
+Fixpoint rs_get (rs : list (loc * rversion)) (l : loc) : option rversion :=
+  match rs with
+  | [] => None
+  | (l', v) :: r => if loc_eqb l' l then Some v else rs_get r l
+  end.
+
+(* the storage access of an incarnation that saw memory [mr] at the marker lookup (if it makes one)
+   and [ms] at the slot lookup *)
+Definition storage_access (st : istate) (mr ms : mvmem) (bk : backing) (a s : N) : access N :=
+  match rs_get (is_reads st) (LReset a) with
+  | Some rv => rd_storage_rec rv ms bk (is_txid st) a s
+  | None => rd_storage2 mr ms bk (is_txid st) a s
+  end.
+
 Definition do_storage (st : istate) (m : mvmem) (bk : backing) (a s : N) : istate * res N :=
-  let ac := rd_storage m bk (is_txid st) a s in (absorb st ac, ac_val ac).
+  let ac := storage_access st m m bk a s in (absorb st ac, ac_val ac).
+
+(* the code before fix 1f61367: the marker is looked up again by every slot read and the recorded
+   version is replaced (finding F8; refuted in ProofsAttempt.v) *)
+Definition do_storage_old (st : istate) (mr ms : mvmem) (bk : backing) (a s : N) : istate * res N :=
+  let ac := rd_storage2 mr ms bk (is_txid st) a s in (absorb st ac, ac_val ac).
 
 Record accesses := mkAccesses {
   acc_reads : list (loc * rversion); acc_writes : list loc; acc_block : list nat; acc_bben : bool }.
